@@ -159,3 +159,10 @@ def run_variant(prop: str, vname: str, root: str) -> dict:
             else f"expected {v.expect}; got new={[f.rule for f in new][:5]} err={err}"
         )
     return {"variant": vname, "expect": v.expect, "ok": ok, "detail": detail, "note": v.note}
+
+
+def text_edit(mod: Module, old: str, new: str, count: int = 1) -> str:
+    """Replace a source fragment (for multi-line restructurings that are awkward to express node by node)."""
+    if mod.source.count(old) < 1:
+        raise AnalysisError(f"self-test edit: fragment not found in {mod.name}: {old[:60]!r}")
+    return mod.source.replace(old, new, count)
